@@ -3,7 +3,7 @@
    Schema/StoreModel.v, the vocabulary Spec/StoreSpec.v. *)
 From PyGql Require Import Spec.StoreSpec Proofs.StoreProofs Proofs.StoreHeal Proofs.StoreLoop
      Proofs.StoreFrame Proofs.StoreClone Proofs.StoreOps Proofs.StoreTerm Proofs.StoreObserve
-     Spec.StoreExtSpec Proofs.StoreExtendP Proofs.StoreExtPres Proofs.StoreVis Proofs.StoreVisM Proofs.StoreCloneP Proofs.StoreDesc Proofs.StoreXform Proofs.StoreCamelC Proofs.StoreGen Proofs.StoreVisC Proofs.StoreSim Proofs.StoreCloneO Proofs.StoreReloc.
+     Spec.StoreExtSpec Proofs.StoreExtendP Proofs.StoreExtPres Proofs.StoreVis Proofs.StoreVisM Proofs.StoreCloneP Proofs.StoreDesc Proofs.StoreXform Proofs.StoreCamelC Proofs.StoreGen Proofs.StoreVisC Proofs.StoreSim Proofs.StoreCloneO Proofs.StoreReloc Proofs.StoreBuildO Proofs.StoreBuildS.
 Local Open Scope N_scope.
 
 (* Schema(query, mutation, subscription, directives, types): whenever the
@@ -333,6 +333,20 @@ Theorem C14_clone_observe_equal : forall fuel m s m' s',
   observe m' (touch_poss m' s') = observe m (touch_poss m s).
 Proof. exact clone_observe_equal_ok. Qed.
 Print Assumptions C14_clone_observe_equal.
+
+(* The registry-order premise of [clone_ok] holds of every schema the
+   constructor built: rebuilding Schema(...) from the types of a registry that
+   _build_type_map produced lists them in the same order (the pre-order
+   traversal is idempotent: Proofs/StoreBuildO.v, StoreBuildS.v).  So for a
+   built schema C14_clone_observe_equal has no assumed premise left, only
+   well-formedness ones. *)
+Theorem C14_build_order_stable : forall f1 f2 m q mu su ds ts s s0,
+  builtins_ok m ->
+  build f1 m q mu su ds ts = Ok s ->
+  build f2 m (s_query s) (s_mut s) (s_sub s) (map snd (s_dirs s)) (map snd (s_types s)) = Ok s0 ->
+  s_types s0 = s_types s.
+Proof. exact build_order_stable. Qed.
+Print Assumptions C14_build_order_stable.
 
 (* Repeatability at full strength: the observable result of an operation on a
    source does not depend on the heap it is run in -- in particular not on the
